@@ -88,6 +88,15 @@ CHECKS = {
         "every text up to the bound is loaded and re-exported the same way; field validation for all contents.",
    note="Trusted: z3; models of render_bytes/join_bytes/BytesIO (validated against the real helpers each run); the dict model. The "
         "inductive argument needs the representation invariant stated in the evidence. Outside: file-system I/O, longer names."),
+ "C15": dict(engine="E1-zshadow", category="other", design_ref="DESIGN.md §4 C15",
+   technique="symbolic execution of the real TOTP serialisers and loaders over symbolic text / integers / key bytes + z3 equality query per field",
+   text="For every label/issuer inside the bound (each UTF-8 width pattern, all code points of that width incl. URL-reserved ones), "
+        "symbolic digits and period, and symbolic key bytes, the real to_uri/to_json/to_dict followed by from_source runs "
+        "symbolically; on each feasible path z3 shows every field read back equals the one written. Templates of inconsistent "
+        "sources with symbolic parts end in ValueError exactly when inconsistent; class defaults set via using() are symbolic too.",
+   note="Trusted: z3; quote/unquote models and the json contract stub (compared with CPython on every run); urlsplit/parse_qsl are "
+        "the real stdlib code on shadow text; decimal render/parse lemma. Outside: AppWallet encryption (no AES in this sandbox), "
+        "labels with a blank at either end (dropped by design), longer texts."),
  "C17": dict(engine="E1-zshadow", category="other", design_ref="DESIGN.md §4 C17",
    technique="path exploration of the real identify() chain of every exported context over symbolic hash shapes (z3 decides each earlier scheme's pattern)",
    text="For every exported context and each scheme B with a backend on this host, a string of B's output shape (from real output "
